@@ -165,7 +165,9 @@ pub fn perms_str(p: &Option<Permissions>) -> String {
     .iter()
     .map(|b| bit(*b))
     .collect();
-    if let Some(streams) = &p.streams {
+    // an empty stream / topic table travels and is journalled as an absent one (it grants nothing either way):
+    // one canonical text for both
+    if let Some(streams) = p.streams.as_ref().filter(|m| !m.is_empty()) {
         s.push('/');
         let mut ids: Vec<&u32> = streams.keys().collect();
         ids.sort();
@@ -188,7 +190,7 @@ pub fn perms_str(p: &Option<Permissions>) -> String {
                     .map(|b| bit(*b))
                     .collect::<String>()
                 );
-                if let Some(topics) = &sp.topics {
+                if let Some(topics) = sp.topics.as_ref().filter(|m| !m.is_empty()) {
                     e.push(':');
                     let mut tids: Vec<&u32> = topics.keys().collect();
                     tids.sort();
